@@ -202,3 +202,5 @@ def run(eng, rep):
     rule_shift_base(eng, rep)
     rule_scaling_needs_two_sided_bounds(eng, rep)
     rep.extra["configurations"] = [repr(c) for c in frames.CONFIGS]
+    from .mirrorrule import rule_mirror
+    rule_mirror(eng, rep, 'C01-8.x0-is-pushed-onto-either-bound-symmetrically', ['solver.solve'])
